@@ -94,7 +94,7 @@ def TiersOkG (Ok : C11.Rule → Prop) (ts : List Tier) : Prop := ∀ t ∈ ts, t
 def ProfilesOkG (Ok : C11.Rule → Prop) (ps : List Policy) : Prop :=
   PoliciesOkG Ok ps ∧ ∀ pol ∈ ps, ∀ r ∈ pol.rules, actOf r.action ≠ .pass
 
-theorem evalRules_ne_pass (env : Env) (p : Pkt) :
+theorem evalRules_ne_pass_dest (env : Env) (p : Pkt) :
     ∀ rs : List C11.Rule, (∀ r ∈ rs, actOf r.action ≠ .pass) → evalRules env p .dest rs ≠ .pass := by
   intro rs
   induction rs with
@@ -123,7 +123,7 @@ theorem profilesVerdict_bridgeG (hb : RuleBridge env9 pkt9 env p tr Ok) :
     intro h
     have ih' := ih ⟨fun q hq => h.1 q (List.mem_cons_of_mem _ hq), fun q hq => h.2 q (List.mem_cons_of_mem _ hq)⟩
     have h1 := policyOutcome_bridgeG hb pr.rules (h.1 pr (List.mem_cons_self))
-    have hnp := evalRules_ne_pass env p pr.rules (h.2 pr (List.mem_cons_self))
+    have hnp := evalRules_ne_pass_dest env p pr.rules (h.2 pr (List.mem_cons_self))
     simp only [outsG, List.map_cons, h1, evalProfiles]
     simp only [outsG] at ih'
     cases he2 : evalRules env p .dest pr.rules <;> simp_all [toOut, C09.profilesVerdict, toV9]
@@ -333,5 +333,136 @@ theorem dst1_bridge (ids : List Nat) (f : Nat → Bool) (h : ids.length ≤ 1) :
     | nil => simp
     | cons y ys => simp only [List.length_cons] at h; omega
 
+
+/-- the negated-protocol clause of `Policy.otherMatch` -/
+def notProto9 (env9 : Netfilter.Env) (q : Option Netfilter.Proto) (n : Nat) : Bool :=
+  match q with
+  | none => true
+  | some q => !Netfilter.protoIs env9 (Policy.protoTrunc q) n
+
+theorem protoIs_k {p : Pkt} {pr : C11.Proto} {k : Nat} (hk : protoNumberRef pr = some k) (h : C11.protoIs p pr = true) :
+    p.proto.toNat = k := by
+  simp only [C11.protoIs, hk, beq_iff_eq] at h
+  exact h
+
+/-- **Same match decision under both references**, every criterion except CIDRs. -/
+theorem ruleMatches_full {N : Names} {env9 : Netfilter.Env} {pkt9 : Netfilter.Packet} {env : Env} {p : Pkt}
+    (he : EnvRel N env9 pkt9 env p) (r : C11.Rule) (hr : RuleFull r) :
+    Policy.ruleMatches env9 (C08.setNameFor false) (trRuleF N r) pkt9 = C11.ruleMatch env p .dest r := by
+  obtain ⟨h0, hn1, hn2, hn3, hn4⟩ := hr.noNet
+  -- the protocol criterion, and what it implies
+  have hB1 : Policy.protoOK env9 (trRuleF N r) pkt9 = r.protocol.all (C11.protoIs p) := by
+    simp only [Policy.protoOK, trRuleF]
+    cases hp : r.protocol with
+    | none => rfl
+    | some a =>
+      have := hr.p1; rw [hp] at this
+      simp only [Option.map_some, Option.all_some, he.proto]
+      exact protoIs_bridge env9 he.protoTab p a this
+  have hB2 : notProto9 env9 (r.notProtocol.map trP) pkt9.proto =
+      r.notProtocol.all (fun x => !C11.protoIs p x) := by
+    cases hp : r.notProtocol with
+    | none => rfl
+    | some a =>
+      have := hr.p2; rw [hp] at this
+      simp only [notProto9, Option.map_some, Option.all_some, he.proto]
+      rw [protoIs_bridge env9 he.protoTab p a this]
+  by_cases hA1 : r.protocol.all (C11.protoIs p) = true
+  · -- ports need a port protocol, ICMP needs ICMP: both follow from the protocol criterion
+    have hpp : r.srcPorts ++ r.notSrcPorts ++ r.dstPorts ++ r.notDstPorts ≠ [] → Netfilter.isPortProto pkt9.proto = true := by
+      intro hne
+      obtain ⟨pr, k, hp, hk, hk3⟩ := hr.portProto hne
+      rw [hp] at hA1
+      have := protoIs_k hk (by simpa using hA1)
+      rw [he.proto, this]
+      rcases hk3 with e | e | e <;> rw [e] <;> rfl
+    have hic : (r.icmp ≠ .none ∨ r.notIcmp ≠ .none) → pkt9.proto = 1 := by
+      intro hne
+      obtain ⟨pr, hp, hk⟩ := hr.icmpProto hne
+      rw [hp] at hA1
+      rw [he.proto]; exact protoIs_k hk (by simpa using hA1)
+    have hok := hr.ports
+    simp only [List.mem_append] at hok
+    -- ports
+    have q1 := portsPos_bridge env9 N r.srcPorts r.srcNamedPortIpSetIds (fun x hx => hok x (by simp [hx])) pkt9.proto pkt9.src
+      p.sport (fun id => env.member id (keyAddr false p.src) p.sport p.proto) (fun id => by rw [← he.sport]; exact he.psetS id)
+      (fun hne => hpp (by simp [hne]))
+    have q2 := portsPos_bridge env9 N r.dstPorts r.dstNamedPortIpSetIds (fun x hx => hok x (by simp [hx])) pkt9.proto pkt9.dst
+      p.postDport (fun id => env.member id (keyAddr false p.postDst) p.postDport p.proto)
+      (fun id => by rw [← he.dport]; exact he.psetD id) (fun hne => hpp (by simp [hne]))
+    have q3 := portsNeg_bridge env9 N r.notSrcPorts r.notSrcNamedPortIpSetIds (fun x hx => hok x (by simp [hx])) pkt9.proto
+      pkt9.src p.sport (fun id => env.member id (keyAddr false p.src) p.sport p.proto)
+      (fun id => by rw [← he.sport]; exact he.psetS id) (fun hne => hpp (by simp [hne]))
+    have q4 := portsNeg_bridge env9 N r.notDstPorts r.notDstNamedPortIpSetIds (fun x hx => hok x (by simp [hx])) pkt9.proto
+      pkt9.dst p.postDport (fun id => env.member id (keyAddr false p.postDst) p.postDport p.proto)
+      (fun id => by rw [← he.dport]; exact he.psetD id) (fun hne => hpp (by simp [hne]))
+    rw [← he.sport] at q1 q3
+    rw [← he.dport] at q2 q4
+    -- IP sets
+    have s1 := all_map_eq N.set (fun id => env9.inIPSet (C08.setNameFor false id) pkt9.src)
+      (fun id => env.member id (keyAddr false p.src) p.sport p.proto) r.srcIpSetIds he.setS
+    have s2 := all_map_eq N.set (fun id => !env9.inIPSet (C08.setNameFor false id) pkt9.src)
+      (fun id => !env.member id (keyAddr false p.src) p.sport p.proto) r.notSrcIpSetIds (fun id => by rw [he.setS id])
+    have s3 := all_map_eq N.set (fun id => env9.inIPSet (C08.setNameFor false id) pkt9.dst)
+      (fun id => env.member id (keyAddr false p.postDst) p.postDport p.proto) r.dstIpSetIds he.setD
+    rw [dst1_bridge _ _ hr.dst1] at s3
+    have s4 := all_map_eq N.set (fun id => !env9.inIPSet (C08.setNameFor false id) pkt9.dst)
+      (fun id => !env.member id (keyAddr false p.postDst) p.postDport p.proto) r.notDstIpSetIds (fun id => by rw [he.setD id])
+    have s5 := all_map_eq N.set (fun id => env9.inIPPortSet (C08.setNameFor false id) pkt9.dst pkt9.proto pkt9.dport)
+      (fun id => env.member id (keyAddr false p.postDst) p.postDport p.proto) r.dstIpPortSetIds he.psetD
+    -- ICMP
+    have i1 : Policy.icmpMatches pkt9 (trIcmp r.icmp) = icmpIs p r.icmp := by
+      by_cases hi : r.icmp = .none
+      · rw [hi]; rfl
+      · exact (icmp_bridge he r.icmp hr.icmpNN.1).1 (hic (Or.inl hi))
+    have i2 : Policy.notIcmpMatches pkt9 (trIcmp r.notIcmp) = (r.notIcmp == .none || !icmpIs p r.notIcmp) := by
+      by_cases hi : r.notIcmp = .none
+      · rw [hi]; rfl
+      · exact (icmp_bridge he r.notIcmp hr.icmpNN.2).2 (hic (Or.inr hi))
+    -- assemble
+    have hL : Policy.ruleMatches env9 (C08.setNameFor false) (trRuleF N r) pkt9 =
+        (Policy.protoOK env9 (trRuleF N r) pkt9 &&
+          Policy.portsMatch env9 (C08.setNameFor false) (r.srcPorts.map trPR) (r.srcNamedPortIpSetIds.map N.set) pkt9.proto pkt9.src pkt9.sport &&
+          Policy.portsMatch env9 (C08.setNameFor false) (r.dstPorts.map trPR) (r.dstNamedPortIpSetIds.map N.set) pkt9.proto pkt9.dst pkt9.dport &&
+          ((r.srcIpSetIds.map N.set).all (fun id => env9.inIPSet (C08.setNameFor false id) pkt9.src) &&
+           (r.dstIpSetIds.map N.set).all (fun id => env9.inIPSet (C08.setNameFor false id) pkt9.dst) &&
+           (r.dstIpPortSetIds.map N.set).all (fun id => env9.inIPPortSet (C08.setNameFor false id) pkt9.dst pkt9.proto pkt9.dport) &&
+           Policy.icmpMatches pkt9 (trIcmp r.icmp) &&
+           notProto9 env9 (r.notProtocol.map trP) pkt9.proto &&
+           (r.notSrcIpSetIds.map N.set).all (fun id => !env9.inIPSet (C08.setNameFor false id) pkt9.src) &&
+           (((r.notSrcPorts.map trPR).isEmpty || (Netfilter.isPortProto pkt9.proto && !Netfilter.inRanges (r.notSrcPorts.map trPR) pkt9.sport)) &&
+            (r.notSrcNamedPortIpSetIds.map N.set).all (fun id => !env9.inIPPortSet (C08.setNameFor false id) pkt9.src pkt9.proto pkt9.sport)) &&
+           (r.notDstIpSetIds.map N.set).all (fun id => !env9.inIPSet (C08.setNameFor false id) pkt9.dst) &&
+           (((r.notDstPorts.map trPR).isEmpty || (Netfilter.isPortProto pkt9.proto && !Netfilter.inRanges (r.notDstPorts.map trPR) pkt9.dport)) &&
+            (r.notDstNamedPortIpSetIds.map N.set).all (fun id => !env9.inIPPortSet (C08.setNameFor false id) pkt9.dst pkt9.proto pkt9.dport)) &&
+           Policy.notIcmpMatches pkt9 (trIcmp r.notIcmp))) := by
+      simp only [Policy.ruleMatches, Policy.netsMatch, Policy.posNetOK, Policy.negNetOK, Policy.familyOK, Policy.restMatch,
+        Policy.otherMatch, trRuleF, h0, hn1, hn2, hn3, hn4, notProto9]
+      cases r.notProtocol <;> simp [Bool.and_assoc]
+    rw [hL, hB1, hB2, q1, q2, q3, q4, s1, s2, s3, s4, s5, i1, i2]
+    simp only [C11.ruleMatch, he.v4, hn1, hn2, hn3, hn4, Pkt.addr, Pkt.port, List.isEmpty_nil, Bool.true_or, List.all_nil,
+      Bool.and_true, Bool.true_and]
+    ac_rfl
+  · -- the protocol criterion fails on both sides
+    have hA1' : r.protocol.all (C11.protoIs p) = false := by simpa using hA1
+    have hR : C11.ruleMatch env p .dest r = false := by
+      simp only [C11.ruleMatch, hA1', Bool.false_and]
+    rw [hR]
+    simp only [Policy.ruleMatches, Policy.restMatch, hB1, hA1', Bool.false_and, Bool.and_false]
+
+
+/-- The rule bridge for the extended fragment. -/
+theorem ruleBridge_full {N : Names} {env9 : Netfilter.Env} {pkt9 : Netfilter.Packet} {env : Env} {p : Pkt}
+    (he : EnvRel N env9 pkt9 env p) : RuleBridge env9 pkt9 env p (trRuleF N) RuleFull := by
+  refine ⟨fun r hr => ⟨hr.act, rfl⟩, fun r hr => ?_⟩
+  rw [filterRule_noNet env.c.v6 r hr.noNet]
+  exact ruleMatches_full he r hr
+
+/-- The protocol-only bridge is an instance as well. -/
+theorem ruleBridge_common (env9 : Netfilter.Env) (he : EnvProto env9) (pkt9 : Netfilter.Packet) (env : Env) (p : Pkt)
+    (hv : pkt9.v6 = false) (hpr : pkt9.proto = p.proto.toNat) : RuleBridge env9 pkt9 env p trRule RuleCommon := by
+  refine ⟨fun r hr => ⟨hr.act, rfl⟩, fun r hr => ?_⟩
+  rw [filterRule_protoOnly env.c.v6 r hr.po]
+  exact ruleMatches_bridge env9 he (C08.setNameFor false) pkt9 env p hv hpr r hr
 
 end CalicoVerif.C12
